@@ -249,7 +249,7 @@ Section Sound.
      nobody sends an alert, both sides retransmit until their callers give up, and NO store entry is
      removed. *)
   Definition plain (p : params) : Prop :=
-    p_fault p = NoFault \/ p_fault p = FSVerify \/ p_fault p = FCVerify.
+    p_fault p = NoFault \/ p_fault p = FSVerify \/ p_fault p = FCVerify \/ p_fault p = FSPolicy.
 
   Theorem mismatch_stalls_without_eviction : forall p cs ss oc os,
     plain p -> offer p cs = Some oc -> srv_lookup p ss (s_id oc) = Some os -> s_sec oc <> s_sec os ->
@@ -261,7 +261,7 @@ Section Sound.
     assert (Hk : K_eqb (KB (s_sec oc) (p_rc p) (p_rs p)) (KB (s_sec os) (p_rc p) (p_rs p)) = false).
     { destruct (K_eqb _ _) eqn:E; [|reflexivity]. apply K_eqb_spec in E. apply KB_inj in E. tauto. }
     cbv zeta. unfold conn. rewrite Ho. cbn [offered_id]. rewrite Hl.
-    destruct Hp as [Hf|[Hf|Hf]]; rewrite Hf; unfold conn_abbr; rewrite Hf, Hk;
+    destruct Hp as [Hf|[Hf|[Hf|Hf]]]; rewrite Hf; unfold conn_abbr; rewrite Hf, Hk;
       destruct (p_arr_s p); cbn; repeat split; reflexivity.
   Qed.
 
@@ -484,17 +484,96 @@ Section Sound.
      no session on the server *)
   Theorem client_cert_not_stored : forall p cs ss,
     p_ccert p = true -> r_mode (cn p cs ss) = Full ->
-    forallb (fun o => negb (is_set o)) (r_sops (cn p cs ss)) = true /\
-    (forall k, get k (post_s ss (cn p cs ss)) = get k ss \/ get k (post_s ss (cn p cs ss)) = None) /\
+    r_sops (cn p cs ss) = [] /\ post_s ss (cn p cs ss) = ss /\
     (o_out (r_s (cn p cs ss)) = Established -> o_sid (r_s (cn p cs ss)) = 0).
   Proof.
     intros p cs ss Hc Hm.
     destruct (conn_full_inv _ _ _ Hm) as [Hf|(Hr & _)].
-    - unfold post_s, conn. rewrite Hf. prj. repeat split; intros; try discriminate; auto.
+    - unfold post_s, conn. rewrite Hf. prj. repeat split; intros; try discriminate; reflexivity.
     - rewrite Hr. unfold post_s, conn_full. rewrite Hc. cbn [negb N.eqb].
-      destruct (p_fault p) eqn:Hf; brk; repeat split; intros; try discriminate; try reflexivity; auto;
-        cbn; match goal with |- get ?k (del ?k' _) = _ \/ _ =>
-               destruct (N.eq_dec k' k) as [->|Hn]; [right; apply get_del_same|left; apply get_del_other; exact Hn] end.
+      destruct (p_fault p) eqn:Hf; brk; repeat split; intros; try discriminate; reflexivity.
+  Qed.
+
+  (* ---------------------------------------------------------------- what enters the SERVER's store *)
+
+  (* flight4Parse saves the session as its LAST step: the server writes a session only in a full
+     handshake that it accepted - the client's Finished record opened under the server's key block,
+     its verify_data matched the server's transcript, neither the authentication policy nor
+     VerifyConnection refused, no client Certificate message - and then under the id and with the
+     master secret of THIS connection. *)
+  Theorem server_stores_only_verified : forall p cs ss k v,
+    In (MSet k v) (r_sops (cn p cs ss)) ->
+    r_mode (cn p cs ss) = Full /\ o_out (r_s (cn p cs ss)) = Established /\
+    k = p_newsid p /\ s_id v = p_newsid p /\ s_sec v = p_mss p /\ s_nil v = false /\
+    p_ccert p = false /\ p_fault p <> FSPolicy /\ p_fault p <> FSVerify /\ p_arr_c p = true /\
+    K_eqb (KB (p_mss p) (p_rc p) (p_rs p)) (KB (p_msc p) (p_rc p) (p_rs p)) = true /\
+    V_eqb (VD true (p_mss p) (p_rc p, p_rs p, p_newsid p)) (VD true (p_msc p) (p_rc p, p_rs p, p_newsid p)) = true.
+  Proof.
+    intros p cs ss k v. unfold conn.
+    destruct (p_fault p) eqn:Hf; try (prj; intros []);
+    (destruct (offer p cs) as [oc|]; cbn [offered_id];
+     [destruct (srv_lookup p ss (s_id oc)) as [os|]|]);
+    unfold conn_abbr, conn_full; rewrite Hf; intro Hin; brk;
+      cbn in *; try discriminate;
+      repeat match goal with
+             | H : _ \/ _ |- _ => destruct H
+             | H : False |- _ => destruct H
+             | H : MDel _ = MSet _ _ |- _ => discriminate H
+             | H : MSet _ _ = MSet _ _ |- _ => injection H as <- <-
+             end;
+      repeat match goal with H : negb _ = false |- _ => apply negb_false_iff in H end;
+      cbn; repeat split; try reflexivity; try assumption; try discriminate.
+  Qed.
+
+  (* hence (injectivity) client and server derived the same master secret in that handshake *)
+  Corollary server_stored_secret_is_shared : forall p cs ss k v,
+    In (MSet k v) (r_sops (cn p cs ss)) -> s_sec v = p_msc p /\ s_sec v = p_mss p.
+  Proof.
+    intros p cs ss k v H. destruct (server_stores_only_verified _ _ _ _ _ H)
+      as (_ & _ & _ & _ & Hs & _ & _ & _ & _ & _ & _ & Hv).
+    apply V_eqb_spec in Hv. apply VD_inj in Hv. destruct Hv as (_ & E & _). rewrite Hs. auto.
+  Qed.
+
+  (* a connection the server did not accept (refused by the policy or by VerifyConnection, Finished
+     mismatch, client that never completes, any alert) adds nothing resumable: whatever the server
+     would resume afterwards it would have resumed before *)
+  Lemma get_del_some : forall k k' st v, get k (del k' st) = Some v -> get k st = Some v.
+  Proof.
+    intros k k' st v H. destruct (N.eq_dec k' k) as [->|Hn].
+    - rewrite get_del_same in H. discriminate.
+    - rewrite get_del_other in H by exact Hn. exact H.
+  Qed.
+
+  Lemma get_apply_ops_cases : forall ops st k v,
+    get k (apply_ops st ops) = Some v -> get k st = Some v \/ In (MSet k v) ops.
+  Proof.
+    induction ops as [|o t IH]; intros st k v H; [left; exact H|].
+    change (apply_ops st (o :: t)) with (apply_ops (apply_op st o) t) in H.
+    destruct (IH _ _ _ H) as [H1|H1]; [|right; right; exact H1].
+    destruct o as [k' v'|k']; cbn [apply_op] in H1.
+    - destruct (N.eq_dec k' k) as [->|Hn].
+      + rewrite get_set_same in H1. injection H1 as ->. right. left. reflexivity.
+      + rewrite get_set_other in H1 by exact Hn. left. exact H1.
+    - left. eapply get_del_some. exact H1.
+  Qed.
+
+  Theorem refused_client_leaves_no_entry : forall p cs ss,
+    o_out (r_s (cn p cs ss)) <> Established ->
+    forall k v, get k (post_s ss (cn p cs ss)) = Some v -> get k ss = Some v.
+  Proof.
+    intros p cs ss Hne k v H. unfold post_s in H.
+    destruct (get_apply_ops_cases _ _ _ _ H) as [H1|H1]; [exact H1|].
+    apply server_stores_only_verified in H1. destruct H1 as (_ & He & _). contradiction.
+  Qed.
+
+  Corollary refused_client_cannot_resume : forall p cs ss p' sid os,
+    o_out (r_s (cn p cs ss)) <> Established ->
+    srv_lookup p' (post_s ss (cn p cs ss)) sid = Some os -> srv_lookup p' ss sid = Some os.
+  Proof.
+    intros p cs ss p' sid os Hne. unfold srv_lookup.
+    destruct (p_sstore p' && negb (sid =? 0)); [|discriminate].
+    destruct (get sid (post_s ss (cn p cs ss))) as [s|] eqn:E; [|discriminate].
+    rewrite (refused_client_leaves_no_entry p cs ss Hne sid s E). auto.
   Qed.
 
   (* an abbreviated handshake never writes a session *)
@@ -556,6 +635,42 @@ Section Sound.
     - destruct (IH rest (post_c cs (cn p cs ss)) (post_s ss (cn p cs ss))) as (c' & s' & E).
       exists c', s'. rewrite E. reflexivity.
     - destruct (IH rest c s) as (c' & s' & E). exists c', s'. exact E.
+  Qed.
+
+  Notation hfinal := (final K V KB VD K_eqb V_eqb).
+
+  (* provenance of the SERVER's store: after any history of connections (no other writer), every
+     entry either was there initially or was written by a connection of the history ... *)
+  Theorem server_store_provenance : forall ps cs ss k v,
+    get k (snd (hfinal (map Conn ps) cs ss)) = Some v ->
+    get k ss = Some v \/ exists e, In e (hrun (map Conn ps) cs ss) /\ In (MSet k v) (r_sops (e_r e)).
+  Proof.
+    induction ps as [|p t IH]; intros cs ss k v H; [left; exact H|].
+    cbn [map final run] in *.
+    destruct (IH _ _ _ _ H) as [H1|(e & Hin & Hs)].
+    - unfold post_s in H1. destruct (get_apply_ops_cases _ _ _ _ H1) as [H2|H2]; [left; exact H2|].
+      right. eexists. split; [left; reflexivity|exact H2].
+    - right. exists e. split; [right; exact Hin|exact Hs].
+  Qed.
+
+  (* ... so, starting from an empty server store, EVERY session the server can resume was created by
+     a full handshake of the history that the server accepted: the client's Finished was verified
+     against the server's transcript, the client met the authentication policy and VerifyConnection,
+     and the stored secret is the master secret both sides derived in that handshake. *)
+  Theorem server_sessions_all_verified : forall ps cs k v,
+    get k (snd (hfinal (map Conn ps) cs [])) = Some v ->
+    exists e, In e (hrun (map Conn ps) cs []) /\
+      r_mode (e_r e) = Full /\ o_out (r_s (e_r e)) = Established /\
+      k = p_newsid (e_p e) /\ s_sec v = p_mss (e_p e) /\ s_sec v = p_msc (e_p e) /\
+      p_fault (e_p e) <> FSPolicy /\ p_fault (e_p e) <> FSVerify /\ p_ccert (e_p e) = false /\
+      V_eqb (VD true (p_mss (e_p e)) (p_rc (e_p e), p_rs (e_p e), p_newsid (e_p e)))
+            (VD true (p_msc (e_p e)) (p_rc (e_p e), p_rs (e_p e), p_newsid (e_p e))) = true.
+  Proof.
+    intros ps cs k v H. destruct (server_store_provenance _ _ _ _ _ H) as [H1|(e & Hin & Hs)]; [discriminate|].
+    exists e. split; [exact Hin|]. rewrite (run_entry_is_conn _ _ _ _ Hin) in *.
+    destruct (server_stored_secret_is_shared _ _ _ _ _ Hs) as (Ec & Es).
+    destruct (server_stores_only_verified _ _ _ _ _ Hs) as (A & B & C & _ & _ & _ & D & E & F & _ & _ & G).
+    repeat split; assumption.
   Qed.
 
   (* over every history and every store content (the stores may be overwritten arbitrarily between
